@@ -135,6 +135,14 @@ def check_vector(v):
         if o != ("ok", [-777 if w is None else w for w in want]):
             bad.append({"what": "str_to_int_with_missing does not give the values with the missing value for '.' and empty cells", "tags": {"op": "str_to_int_with_missing"},
                         "vector": v, "expected": [-777 if w is None else w for w in want], "observed": o})
+        # the missing value given in other ways (a NumPy scalar of a narrower type, the default): the parsed values are the same integers
+        for mname, mv, shown in (("np.int32(-1)", np.int32(-1), -1), ("np.uint8(0)", np.uint8(0), 0), ("np.int64(-7)", np.int64(-7), -7), ("default", None, 0)):
+            o = outcome(lambda: [int(x) for x in (str_to_int_with_missing(bnp.as_encoded_array(texts)) if mv is None else
+                                                  str_to_int_with_missing(bnp.as_encoded_array(texts), missing_value=mv)).tolist()])
+            n += 1
+            if o != ("ok", [shown if w is None else w for w in want]):
+                bad.append({"what": "str_to_int_with_missing gives other values when the missing value is given as %s" % mname, "tags": {"op": "str_to_int_with_missing", "missing_value": mname},
+                            "vector": v, "expected": [shown if w is None else w for w in want], "observed": o})
         plus = any(t.startswith("+") for t in texts)        # an explicit '+' is integer spelling; float texts carry '-' only (Numbers.tla!FloatText)
         o = ("ok", [None if w is None else float(w) for w in want]) if plus else \
             outcome(lambda: [None if x != x else float(x) for x in str_to_float_with_missing(bnp.as_encoded_array(texts)).tolist()])
